@@ -26,6 +26,7 @@ type Conn struct {
 	Wire     []byte
 	Writes   []int // size of every successful write
 	NWrite   int   // number of Write/Sendfile calls
+	NSF      int   // number of Sendfile calls
 	FailAt   int
 	Failed   int // number of calls that returned the injected error
 	Closed   int
@@ -79,6 +80,7 @@ func (c SFConn) Sendfile(f *os.File, remain int64) (int64, error) {
 		return 0, nil
 	}
 	c.NWrite++
+	c.NSF++
 	if c.Closed > 0 {
 		c.AfterCl++
 		return 0, net.ErrClosed
